@@ -12,9 +12,10 @@ CONSTANTS
  Chunks = {1, 7}
  LyingSizes = TRUE
  InlineData = FALSE
- Conc = 64
+ Conc = 3
  Probes = FALSE
  Exts = {FALSE}
+ KeepSlots = FALSE
 INIT GInit
 NEXT GNext
 INVARIANTS Emit
